@@ -99,10 +99,17 @@ def _compile_many(jobs, nproc):
         raise RuntimeError("build failed")
 
 
-def _prune(parent, prefix, keep):
+def _prune(parent, prefix, keep, min_age_s=1800):
+    import time
     for n in os.listdir(parent):
         if n.startswith(prefix) and n != keep:
             p = os.path.join(parent, n)
+            try:
+                # another engine's build (different lock) may be compiling into / linking from it
+                if time.time() - os.path.getmtime(p) < min_age_s:
+                    continue
+            except OSError:
+                continue
             try:
                 if os.path.isdir(p):
                     shutil.rmtree(p)
